@@ -138,6 +138,10 @@ pub fn states_entry<'a>(c: &'a mut StateCache, key: CacheKey) -> (r: &'a mut Blo
         forall|k: int| k != key.id@ && #[trigger] final(c).m@.contains_key(k) ==> old(c).m@.contains_key(k) && final(c).m@[k] == old(c).m@[k],
 { unimplemented!() }
 pub struct BlockHandlerConfig { pub max_total_message_size: usize }
+// the key depends on method, path options and source only - none of which the handler changes
+pub open spec fn key_stable<E>(q: CoapRequest<E>) -> bool {
+    forall|q2: CoapRequest<E>| q2.source == q.source && same_but_payload(q2.message, q.message) ==> #[trigger] key_of(q2) == key_of(q)
+}
 // data-structure invariant of a stored state: a remembered Block2 preference was decoded from an
 // option value, so its size exponent is at most 7
 pub open spec fn st_wf(s: BlockState) -> bool { s.last_request_block2 is Some ==> s.last_request_block2->0.size_exponent <= 7 }
@@ -154,12 +158,158 @@ pub open spec fn same_msg(a: Packet, b: Packet) -> bool { same_but_payload(a, b)
 pub open spec fn same_correlation(a: Packet, b: Packet) -> bool {
     a.header.ver_type_tkl == b.header.ver_type_tkl && a.header.message_id == b.header.message_id && a.token@ == b.token@
 }
+// options of the cached reply laid over the prepared response (packet_clone_limited)
+pub open spec fn overlay(base: Map<u16, Seq<Seq<u8>>>, top: Map<u16, Seq<Seq<u8>>>) -> Map<u16, Seq<Seq<u8>>> {
+    Map::new(base.dom().union(top.dom()), |k: u16| if top.contains_key(k) { top[k] } else { base[k] })
+}
+pub open spec fn min_int(a: int, b: int) -> int { if a <= b { a } else { b } }
+// what serving block `blk` of the cached reply `cached` into the prepared response does (C08, C12)
+pub open spec fn served<E>(q0: CoapRequest<E>, q1: CoapRequest<E>, blk: BlockValue, cached: Packet, r: Result<bool, HandlingError>) -> bool {
+            &&& q1.message == q0.message && q1.source == q0.source
+            &&& (q1.response is Some) == (q0.response is Some)
+            &&& (q0.response is None ==> r is Err)
+            &&& (r is Err ==> (r->Err_0.code is Some || q0.response is None))
+            // C12: the reply keeps message id, token and token length of the request being answered
+            &&& (q0.response is Some ==> {
+                let m0 = q0.response->0.message; let m1 = q1.response->0.message;
+                m1.header.message_id == m0.header.message_id && m1.token@ == m0.token@ && tkl_of(m1.header.ver_type_tkl) == tkl_of(m0.header.ver_type_tkl)
+            })
+            &&& (q0.response is Some ==> {
+                let s = sz(blk.size_exponent); let n = blk.num as int;
+                let body = cached.payload@; let len = body.len() as int;
+                let m0 = q0.response->0.message; let m1 = q1.response->0.message;
+                // C08: block n exists iff its offset lies inside the body (so an empty body has no block 0)
+                &&& (r is Ok) == (n * s < len)
+                &&& (r is Ok ==> ({
+                        // exactly the bytes [n*s, min((n+1)*s, len)), `more` exactly when bytes remain
+                        &&& m1.payload@ == body.subrange(n * s, min_int((n + 1) * s, len))
+                        &&& r->Ok_0 == ((n + 1) * s < len)
+                        // block number and size echo the request, every other option comes from the cached reply
+                        &&& opts_view(m1.options) == overlay(opts_view(m0.options), opts_view(cached.options)).insert(23,
+                                seq![block_bytes(BlockValue { num: blk.num, more: r->Ok_0, size_exponent: blk.size_exponent })])
+                        &&& m1.header.code == cached.header.code
+                        &&& ver_of(m1.header.ver_type_tkl) == ver_of(cached.header.ver_type_tkl)
+                        &&& type_bits_of(m1.header.ver_type_tkl) == type_bits_of(cached.header.ver_type_tkl)
+                    }))
+            })
+}
 proof fn lemma_spliced_len(dst: Seq<u8>, a: int, b: int, with: Seq<u8>, max: int)
     requires 0 <= a <= b, b <= dst.len() + max, 0 <= max
     ensures spliced(dst, a, b, with).len() <= dst.len() + max + with.len()
 {
     let d = zero_ext(dst, b);
     assert(d.len() <= dst.len() + max);
+}
+
+// ---------------------------------------------------------------- C09 history lemma
+// One Block1 step on the buffer, as the step contract of maybe_handle_request_block1 states it
+pub open spec fn b1_buf(buf: Seq<u8>, num: int, s: int, p: Seq<u8>) -> Seq<u8> { spliced(buf, num * s, num * s + s, p) }
+pub open spec fn b1_delivered(buf: Seq<u8>, num: int, s: int, p: Seq<u8>) -> Seq<u8> { b1_buf(buf, num, s, p).take(num * s + p.len()) }
+// buffer after the non-final blocks 0..j of body `body`, each delivered dup(i) >= 1 times in a row, starting from ANY
+// buffer x0 (what an abandoned earlier upload left behind)
+pub open spec fn after_blocks(x0: Seq<u8>, body: Seq<u8>, s: int, j: int) -> Seq<u8>
+    decreases j
+{ if j <= 0 { x0 } else { b1_buf(after_blocks(x0, body, s, j - 1), j - 1, s, body.subrange((j - 1) * s, j * s)) } }
+proof fn lemma_mul_mono(a: int, b: int, s: int) requires a <= b, s >= 0 ensures a * s <= b * s { assert(a * s <= b * s) by (nonlinear_arith) requires a <= b, s >= 0; }
+// the first j*s bytes of the buffer are the first j*s bytes of the body, whatever was there before
+proof fn lemma_after_blocks(x0: Seq<u8>, body: Seq<u8>, s: int, j: int)
+    requires s > 0, 0 <= j, j * s <= body.len()
+    ensures after_blocks(x0, body, s, j).len() >= j * s, after_blocks(x0, body, s, j).subrange(0, j * s) == body.subrange(0, j * s)
+    decreases j
+{
+    if j > 0 {
+        lemma_mul_mono(j - 1, j, s);
+        lemma_mul_mono(0, j - 1, s);
+        assert((j - 1) * s + s == j * s) by (nonlinear_arith);
+        lemma_after_blocks(x0, body, s, j - 1);
+        let prev = after_blocks(x0, body, s, j - 1);
+        let p = body.subrange((j - 1) * s, j * s);
+        let d = zero_ext(prev, j * s);
+        let cur = b1_buf(prev, j - 1, s, p);
+        assert(d.len() >= j * s);
+        assert(cur == d.subrange(0, (j - 1) * s) + p + d.subrange(j * s, d.len() as int));
+        assert(cur.len() == d.len());
+        assert(d.subrange(0, (j - 1) * s) =~= prev.subrange(0, (j - 1) * s));
+        assert(p.len() == s);
+        assert(prev.subrange(0, (j - 1) * s) == body.subrange(0, (j - 1) * s));
+        assert(cur.subrange(0, j * s) =~= body.subrange(0, (j - 1) * s) + p);
+        assert(body.subrange(0, (j - 1) * s) + p =~= body.subrange(0, j * s));
+        assert(after_blocks(x0, body, s, j) == cur);
+    } else {
+        assert(j * s == 0) by (nonlinear_arith) requires j == 0;
+        assert(after_blocks(x0, body, s, 0).subrange(0, 0) =~= body.subrange(0, 0));
+    }
+}
+// a block delivered again right after itself changes nothing (consecutive duplicates)
+proof fn lemma_b1_idempotent(buf: Seq<u8>, num: int, s: int, p: Seq<u8>)
+    requires s > 0, num >= 0, p.len() == s
+    ensures b1_buf(b1_buf(buf, num, s, p), num, s, p) == b1_buf(buf, num, s, p)
+{
+    lemma_mul_mono(0, num, s);
+    let a = num * s; let b = a + s;
+    let d = zero_ext(buf, b);
+    let once = b1_buf(buf, num, s, p);
+    assert(once == d.subrange(0, a) + p + d.subrange(b, d.len() as int));
+    assert(once.len() == d.len());
+    let d2 = zero_ext(once, b);
+    assert(d2 == once);
+    assert(b1_buf(once, num, s, p) =~= once);
+}
+// C09: uploading the blocks of `body` in order (k full blocks, then the final block with the remaining
+// 0..s bytes), from ANY previous buffer contents, hands the application exactly `body`
+proof fn theorem_c09_upload_delivers_body(x0: Seq<u8>, body: Seq<u8>, s: int, k: int)
+    requires s > 0, 0 <= k, k * s <= body.len() <= k * s + s
+    ensures b1_delivered(after_blocks(x0, body, s, k), k, s, body.subrange(k * s, body.len() as int)) == body
+{
+    lemma_after_blocks(x0, body, s, k);
+    lemma_mul_mono(0, k, s);
+    let buf = after_blocks(x0, body, s, k);
+    let p = body.subrange(k * s, body.len() as int);
+    let d = zero_ext(buf, k * s + s);
+    let full = b1_buf(buf, k, s, p);
+    assert(full == d.subrange(0, k * s) + p + d.subrange(k * s + s, d.len() as int));
+    assert(d.subrange(0, k * s) =~= buf.subrange(0, k * s));
+    assert(full.take(k * s + p.len()) =~= body.subrange(0, k * s) + p);
+    assert(body.subrange(0, k * s) + p =~= body);
+}
+
+// ---------------------------------------------------------------- vacuity probes for the stubs
+// (each must FAIL in the vacuity run: a stub whose assumed contract were contradictory would make
+// everything after a call to it verify trivially)
+fn probe_negotiate(rb: Option<&BlockValue>, ms: usize, tp: usize, mx: usize)
+    requires rb is Some ==> rb->0.size_exponent <= 7, tp <= ms, ms <= usize::MAX / 4
+{
+    let r = BlockHandler::<u8>::negotiate_block_size_if_necessary(rb, ms, tp, mx);
+    // @VACUITY-ONLY proof { assert(false); }
+}
+fn probe_compute(p: &mut Packet) {
+    let r = BlockHandler::<u8>::compute_message_size_hack(p);
+    // @VACUITY-ONLY proof { assert(false); }
+}
+fn probe_splice(dst: &mut Vec<u8>, a: usize, b: usize, w: &Vec<u8>, max: usize) requires a <= b {
+    let r = extending_splice_u8(dst, a, b, w, max);
+    // @VACUITY-ONLY proof { assert(false); }
+}
+fn probe_chunks(d: &Vec<u8>, size: usize, n: usize) requires size > 0 {
+    let mut c = chunks_skip(d, size, n);
+    let x = c.next();
+    let y = c.next();
+    // @VACUITY-ONLY proof { assert(false); }
+}
+fn probe_entry(c: &mut StateCache, k: CacheKey) {
+    let st = states_entry(c, k);
+    st.cached_request_payload = None;
+    // @VACUITY-ONLY proof { assert(false); }
+}
+fn probe_set_single(p: &mut Packet, b: BlockValue) requires b.size_exponent <= 7 {
+    set_single_option_as(p, CoapOption::Block2, b);
+    // @VACUITY-ONLY proof { assert(false); }
+}
+fn probe_codec(v: Vec<u8>, b: BlockValue) requires b.size_exponent <= 7 {
+    let x = BlockValue::try_from(v);
+    let y: Vec<u8> = b.into();
+    let z = BlockValue { num: 1, more: true, size_exponent: 3 }.size();
+    // @VACUITY-ONLY proof { assert(false); }
 }
 
 // ---------------------------------------------------------------- request / response / state
@@ -197,7 +347,7 @@ def build(repo):
     u.stub_fn((BH, 'compute_message_size_hack'))
     u.contract((BH, 'compute_message_size_hack'), '''        ensures *final(packet) == *old(packet), r is Err ==> r->Err_0.code is Some,
             r is Ok ==> r->Ok_0 == overhead_of(*old(packet)) + old(packet).payload@.len() && r->Ok_0 <= usize::MAX / 4''')
-    u.rule('R21:extending_splice', r'extending_splice\(\s*(\w+),\s*(\w+)\.\.([^,]+),\s*([\w\.]+)\.iter\(\)\.copied\(\),\s*(\w+),?\s*\)',
+    u.rule('R21:extending_splice', r'extending_splice\(\s*(&mut \w+|\w+),\s*(\w+)\s*\.\.\s*([^,]+),\s*([\w\.]+)\.iter\(\)\.copied\(\),\s*(\w+),?\s*\)',
            r'extending_splice_u8(\1, \2, \3, &\4, \5)', 1)
     u.rule('R9:internal-fn-item', r'\.map_err\(HandlingError::internal\)\?', '.map_err(HandlingError::internal_str)?', 1)
     u.rule('R24:states-entry', r'self\s*\.states\s*\.entry\(request\.deref\(\)\.into\(\)\)\s*\.or_insert\(BlockState::default\(\)\)',
@@ -209,7 +359,7 @@ def build(repo):
     u.rule('R20:set_options_as-single', r'(\w+(?:\.\w+)*)\.set_options_as::<BlockValue>\(\s*(CoapOption::\w+),\s*\[(\w+)\]\.into\(\),?\s*\)',
            r'set_single_option_as(&mut \1, \2, \3)', 1)
     u.rule('R23:ref-pattern-in-for', r'for \(&option, value\) in src\.options\(\) \{', 'for (option_ref, value) in src.options() { let option = *option_ref;', 1)
-    u.rule('R22:clone_from', r'state\.last_request_block2\.clone_from\(&maybe_block2\);', 'state.last_request_block2 = maybe_block2.clone();', 1)
+    u.rule('R22:clone_from', r'(\w[\w\.]*)\.clone_from\(&(\w+)\);', r'\1 = \2.clone();', (0, 2))
     u.rule('R23:ref-pattern', r'if let Some\(ref response\) = state\.cached_response \{', 'if let Some(response) = &state.cached_response {', 1)
     u.rule('R19:chunks-skip', r'cached_payload\s*\.chunks\(request_block_size\)\s*\.skip\(usize::from\(request_block2\.num\)\)', 'chunks_skip(cached_payload, request_block_size, usize::from(request_block2.num))', 1)
     u.rule('R6:extend-slice', r'response_payload\.extend\(cached_payload_chunk\);', 'vec_extend_slice(response_payload, cached_payload_chunk);', 1)
@@ -217,12 +367,102 @@ def build(repo):
     for fn in ['maybe_handle_request_block2']:
         u.closure((BH, fn), r'\|x\|', 'x: Result<BlockValue, IncompatibleOptionValueFormat>', 'o: Option<BlockValue>', 'ensures x is Ok ==> o == Some(x->Ok_0), x is Err ==> o is None')
     u.contract(('impl Packet', 'options'), '        ensures call_ensures(BTreeMap::<u16, VecDeque<Vec<u8>>>::iter, (&self.options,), r)', props=['C08', 'C12'])
-    u.contract((BH, 'maybe_serve_cached_response'), '''        requires request_block2.size_exponent <= 7''')
-    for fn in ['intercept_request', 'intercept_response']:
-        u.contract((BH, fn), '''        requires cache_wf(old(self).states), old(request).message.payload@.len() <= usize::MAX / 8,
-            old(request).response is Some ==> old(request).response->0.message.payload@.len() <= usize::MAX / 8
-        ensures cache_wf(final(self).states)''')
-    u.contract((BH, 'maybe_handle_request_block2'), '        requires st_wf(*old(state)) ensures st_wf(*final(state))')
+    PCL = (BH, 'packet_clone_limited')
+    u.contract(PCL, '''        ensures
+            // version, type and code come from the cached reply ...
+            ver_of(final(dst).header.ver_type_tkl) == ver_of(src.header.ver_type_tkl),
+            type_bits_of(final(dst).header.ver_type_tkl) == type_bits_of(src.header.ver_type_tkl),
+            final(dst).header.code == src.header.code,
+            // ... message id, token (and its length field) and payload stay those of the current reply (C12)
+            tkl_of(final(dst).header.ver_type_tkl) == tkl_of(old(dst).header.ver_type_tkl),
+            final(dst).header.message_id == old(dst).header.message_id, final(dst).token@ == old(dst).token@, final(dst).payload@ == old(dst).payload@,
+            // every option of the cached reply is repeated (C08)
+            opts_view(final(dst).options) == overlay(opts_view(old(dst).options), opts_view(src.options))''', props=['C08', 'C12'])
+    u.body_start(PCL, '''        broadcast use vstd::std_specs::btree::group_btree_axioms;
+        let ghost d0 = opts_view(dst.options);
+        let ghost sv = opts_view(src.options);
+        let ghost mut visited: Set<u16> = Set::empty();
+        proof { reveal(opts_view); }''')
+    u.loop(PCL, 0, '''            invariant
+                ver_of(dst.header.ver_type_tkl) == ver_of(src.header.ver_type_tkl),
+                type_bits_of(dst.header.ver_type_tkl) == type_bits_of(src.header.ver_type_tkl),
+                dst.header.code == src.header.code,
+                tkl_of(dst.header.ver_type_tkl) == tkl_of(old(dst).header.ver_type_tkl),
+                dst.header.message_id == old(dst).header.message_id, dst.token@ == old(dst).token@, dst.payload@ == old(dst).payload@,
+                sv == opts_view(src.options), d0 == opts_view(old(dst).options),
+                forall|i: int| 0 <= i < it.seq().len() ==> src.options@.contains_key(*(#[trigger] it.seq()[i]).0) && src.options@[*it.seq()[i].0] == *it.seq()[i].1,
+                forall|k: u16| #![trigger src.options@.contains_key(k)] src.options@.contains_key(k) ==> exists|i: int| 0 <= i < it.seq().len() && *(#[trigger] it.seq()[i]).0 == k,
+                // keys already visited carry the cached values, all others are as they were
+                forall|i: int| 0 <= i < it.index() ==> visited.contains(*(#[trigger] it.seq()[i]).0),
+                forall|k: u16| #[trigger] visited.contains(k) ==> sv.contains_key(k) && opts_view(dst.options).contains_key(k) && opts_view(dst.options)[k] == sv[k],
+                forall|k: u16| !visited.contains(k) ==> (#[trigger] opts_view(dst.options).contains_key(k) == d0.contains_key(k)) && (d0.contains_key(k) ==> opts_view(dst.options)[k] == d0[k]),''', iter_name='it')
+    u.after(PCL, r'let option = \*option_ref;', '''            let ghost before = opts_view(dst.options);
+            proof { reveal(opts_view); assert(sv.contains_key(option) && sv[option] == vals_view(*value)); }''')
+    u.after_stmt(PCL, r'dst\.set_option\(', '''            proof {
+                let after = opts_view(dst.options);
+                assert(after == before.insert(option, vals_view(*value)));
+                visited = visited.insert(option);
+            }''')
+    u.body_end(PCL, '''        proof {
+            let fin = opts_view(dst.options);
+            reveal(opts_view);
+            assert forall|k: u16| sv.contains_key(k) implies visited.contains(k) by {
+                assert(src.options@.contains_key(k));
+            }
+            assert(fin =~= overlay(d0, sv));
+        }''')
+    MS = (BH, 'maybe_serve_cached_response')
+    u.contract(MS, '''        requires request_block2.size_exponent <= 7
+        ensures served(*old(request), *final(request), request_block2, *cached_response, r)''', props=['C08', 'C11', 'C12'])
+    u.before(MS, r'let mut chunks =', '''        proof {
+            let s = sz(request_block2.size_exponent);
+            assert(16 <= s <= 2048);
+            assert((request_block2.num as int) * s <= 65535 * 2048) by (nonlinear_arith) requires 0 <= request_block2.num as int <= 65535, 0 <= s <= 2048;
+            assert((request_block2.num as int + 2) * s <= 65537 * 2048) by (nonlinear_arith) requires 0 <= request_block2.num as int <= 65535, 0 <= s <= 2048;
+        }''')
+    u.closure(MS, r'\|\|', '', 'e: HandlingError', 'ensures e.code is Some')
+    FRAME = '''
+            // C12 isolation: only the state stored under this request's key is read or written; every other
+            // key's state is untouched (it may only disappear by expiry, R24)
+            final(self).config == old(self).config,
+            forall|k: int| k != key_of(*old(request)) && #[trigger] final(self).states.m@.contains_key(k) ==> old(self).states.m@.contains_key(k) && final(self).states.m@[k] == old(self).states.m@[k],
+            // C12 reply ownership: whatever the handler does to the reply, message id and token stay those CoapResponse::new took from this request
+            (old(request).response is Some ==> final(request).response is Some
+                && final(request).response->0.message.header.message_id == old(request).response->0.message.header.message_id
+                && final(request).response->0.message.token@ == old(request).response->0.message.token@
+                && tkl_of(final(request).response->0.message.header.ver_type_tkl) == tkl_of(old(request).response->0.message.header.ver_type_tkl)),
+            // C11: errors can be rendered as a reply (or there is no reply to render into)
+            r is Err ==> (r->Err_0.code is Some || old(request).response is None),
+            final(request).source == old(request).source,'''
+    u.contract((BH, 'intercept_request'), '''        requires cache_wf(old(self).states), old(request).message.payload@.len() <= usize::MAX / 8,
+            key_stable(*old(request)),
+        ensures cache_wf(final(self).states),''' + FRAME, props=['C11', 'C12'])
+    u.contract((BH, 'intercept_response'), '''        requires cache_wf(old(self).states), old(request).message.payload@.len() <= usize::MAX / 8,
+            old(request).response is Some ==> old(request).response->0.message.payload@.len() <= usize::MAX / 8,
+        ensures cache_wf(final(self).states),
+            final(request).message == old(request).message,''' + FRAME, props=['C08', 'C11', 'C12'])
+    u.contract((BH, 'maybe_handle_request_block2'), '''        requires st_wf(*old(state))
+        ensures
+            st_wf(*final(state)),
+            // the client's latest Block2 preference is remembered (or forgotten when the request carries none)
+            final(state).last_request_block2 == first_block(opts_view(old(request).message.options), 23),
+            final(state).cached_request_payload == old(state).cached_request_payload,
+            ({
+                let b = first_block(opts_view(old(request).message.options), 23);
+                if b is Some && old(state).cached_response is Some {
+                    // follow-up block: served from the cache, the application is not consulted (Ok(true));
+                    // the cache entry is released exactly when the final block has been served (C08)
+                    &&& served(*old(request), *final(request), b->0, old(state).cached_response->0, if r is Ok { Ok(!(final(state).cached_response is None)) } else { Err(r->Err_0) })
+                    &&& (r is Ok ==> r->Ok_0)
+                    &&& (r is Err ==> final(state).cached_response == old(state).cached_response)
+                    &&& (r is Ok ==> (final(state).cached_response is None || final(state).cached_response == old(state).cached_response))
+                } else {
+                    // nothing cached or no Block2 option: the request goes to the application untouched
+                    &&& r is Ok && !r->Ok_0
+                    &&& *final(request) == *old(request)
+                    &&& final(state).cached_response == old(state).cached_response
+                }
+            })''', props=['C08', 'C11', 'C12'])
     u.contract(B1, '''        requires st_wf(*old(state)), old(request).message.payload@.len() <= usize::MAX / 8
         ensures
             st_wf(*final(state)),
@@ -234,41 +474,51 @@ def build(repo):
             same_but_payload(final(request).message, old(request).message),
             // C12: whatever happens, the reply keeps the message id and token of the request being answered
             old(request).response is Some ==> same_correlation(final(request).response->0.message, old(request).response->0.message),
-            ({
-                let b = first_block(opts_view(old(request).message.options), 27);
-                let p = old(request).message.payload@;
-                // C11: a block whose offset would need a jump of more than 16 KiB is rejected and leaves the buffered data unchanged
-                &&& (b is Some && (b->0.num as int) * sz(b->0.size_exponent) + sz(b->0.size_exponent) > buf_of(*old(state)).len() + 16384
-                        ==> r is Err && buf_of(*final(state)) == buf_of(*old(state)) && same_msg(final(request).message, old(request).message))
-                &&& (b is Some && r is Ok ==> ({
-                        let off = (b->0.num as int) * sz(b->0.size_exponent);
-                        let buf = spliced(buf_of(*old(state)), off, off + sz(b->0.size_exponent), p);
-                        // C11: bounded growth
-                        &&& buf.len() <= buf_of(*old(state)).len() + 16384 + p.len()
-                        &&& old(request).response is Some
-                        // non-final block: buffered, answered 2.31 Continue + Block1, application not reached
-                        &&& (b->0.more ==> r->Ok_0 && buf_of(*final(state)) == buf && final(state).cached_request_payload is Some
-                                && same_msg(final(request).message, old(request).message)
-                                && final(request).response->0.message.header.code == MessageClass::Response(ResponseType::Continue)
-                                && final(request).response->0.message.payload@ == old(request).response->0.message.payload@
-                                && exists|nb: BlockValue| nb.size_exponent <= 7 && #[trigger] opts_view(final(request).response->0.message.options)
-                                        == push_opt(opts_view(old(request).response->0.message.options), 27, block_bytes(nb)))
-                        // final block: the whole buffer is handed to the application, the buffer is released
-                        &&& (!b->0.more ==> !r->Ok_0 && final(state).cached_request_payload is None
-                                && final(request).message.payload@ == buf && same_but_payload(final(request).message, old(request).message)
-                                && final(request).response->0.message.header.code == old(request).response->0.message.header.code
-                                && exists|nb: BlockValue| nb.size_exponent <= 7 && #[trigger] opts_view(final(request).response->0.message.options)
-                                        == push_opt(opts_view(old(request).response->0.message.options), 27, block_bytes(nb)))
-                    }))
-                // no Block1 option: either untouched (fits), or answered 4.13 with a Block1 size hint
-                &&& (b is None && r is Ok ==> final(state).cached_request_payload == old(state).cached_request_payload
-                        && same_msg(final(request).message, old(request).message)
-                        && (!r->Ok_0 ==> final(request).response == old(request).response)
-                        && (r->Ok_0 ==> old(request).response is Some
-                                && final(request).response->0.message.header.code == MessageClass::Response(ResponseType::RequestEntityTooLarge)
-                                && exists|nb: BlockValue| nb.size_exponent <= 7 && #[trigger] opts_view(final(request).response->0.message.options)
-                                        == push_opt(opts_view(old(request).response->0.message.options), 27, block_bytes(nb))))
-            })''', props=['C09', 'C11', 'C12'])
+            // ---- the Block1 step.  b = decoded Block1 option, p = payload, off = byte offset of the block,
+            //      buf = the buffer with [off, off+size) replaced by p (zero-extended if needed)
+            // C11: a block whose end lies more than 16 KiB beyond the buffer is rejected, buffered data unchanged
+            ({ // @clause reject-far-block @props C11
+               let b = first_block(opts_view(old(request).message.options), 27);
+               b is Some && (b->0.num as int) * sz(b->0.size_exponent) + sz(b->0.size_exponent) > buf_of(*old(state)).len() + 16384
+                   ==> r is Err && buf_of(*final(state)) == buf_of(*old(state)) && same_msg(final(request).message, old(request).message) }),
+            // C11: an accepted block grows the buffer by at most 16 KiB plus its own payload
+            ({ // @clause bounded-growth @props C11
+               let b = first_block(opts_view(old(request).message.options), 27); let p = old(request).message.payload@;
+               b is Some && r is Ok ==> b1_buf(buf_of(*old(state)), b->0.num as int, sz(b->0.size_exponent), p).len() <= buf_of(*old(state)).len() + 16384 + p.len()
+                   && old(request).response is Some }),
+            // C09: a non-final block is buffered and answered 2.31 Continue + Block1; the application is not reached
+            ({ // @clause nonfinal-buffered-continue @props C09
+               let b = first_block(opts_view(old(request).message.options), 27); let p = old(request).message.payload@;
+               b is Some && r is Ok && b->0.more ==> r->Ok_0 && final(state).cached_request_payload is Some
+                   && buf_of(*final(state)) == b1_buf(buf_of(*old(state)), b->0.num as int, sz(b->0.size_exponent), p)
+                   && same_msg(final(request).message, old(request).message)
+                   && final(request).response->0.message.header.code == MessageClass::Response(ResponseType::Continue)
+                   && final(request).response->0.message.payload@ == old(request).response->0.message.payload@
+                   && exists|nb: BlockValue| nb.size_exponent <= 7 && #[trigger] opts_view(final(request).response->0.message.options)
+                           == push_opt(opts_view(old(request).response->0.message.options), 27, block_bytes(nb)) }),
+            // C09: the final block hands the application the assembled body, which ends with this block; the buffer is released
+            ({ // @clause final-delivers-body @props C09
+               let b = first_block(opts_view(old(request).message.options), 27); let p = old(request).message.payload@;
+               b is Some && r is Ok && !b->0.more ==> !r->Ok_0 && final(state).cached_request_payload is None
+                   && final(request).message.payload@ == b1_delivered(buf_of(*old(state)), b->0.num as int, sz(b->0.size_exponent), p)
+                   && final(request).response->0.message.header.code == old(request).response->0.message.header.code
+                   && exists|nb: BlockValue| nb.size_exponent <= 7 && #[trigger] opts_view(final(request).response->0.message.options)
+                           == push_opt(opts_view(old(request).response->0.message.options), 27, block_bytes(nb)) }),
+            // C09 "exactly once": a final block with num > 0 that finds no upload in progress (the final block
+            // delivered a second time) must not be handed to the application
+            ({ // @clause final-duplicate-not-delivered @props C09
+               let b = first_block(opts_view(old(request).message.options), 27);
+               b is Some && !b->0.more && b->0.num > 0 && old(state).cached_request_payload is None ==> !(r is Ok && !r->Ok_0) }),
+            // C09: without a Block1 option the request is untouched (fits) or answered 4.13 with a Block1 size hint
+            ({ // @clause no-block1-413 @props C09
+               let b = first_block(opts_view(old(request).message.options), 27);
+               b is None && r is Ok ==> final(state).cached_request_payload == old(state).cached_request_payload
+                   && same_msg(final(request).message, old(request).message)
+                   && (!r->Ok_0 ==> final(request).response == old(request).response)
+                   && (r->Ok_0 ==> old(request).response is Some
+                           && final(request).response->0.message.header.code == MessageClass::Response(ResponseType::RequestEntityTooLarge)
+                           && exists|nb: BlockValue| nb.size_exponent <= 7 && #[trigger] opts_view(final(request).response->0.message.options)
+                                   == push_opt(opts_view(old(request).response->0.message.options), 27, block_bytes(nb))) }),''', props=['C09', 'C11', 'C12'])
     u.closure(B1, r'\|x\|', 'x: Result<BlockValue, IncompatibleOptionValueFormat>', 'o: Option<BlockValue>', 'ensures x is Ok ==> o == Some(x->Ok_0), x is Err ==> o is None')
     u.before(B1, r'let payload_offset\s*=', '''                proof {
                     let e = request_block1.size_exponent;
@@ -277,5 +527,8 @@ def build(repo):
                     assert((request_block1.num as int) * sz(e) <= 65535 * 2048) by (nonlinear_arith)
                         requires 0 <= request_block1.num as int <= 65535, 0 <= sz(e) <= 2048;
                 }''')
+    for fn, pr in [('theorem_c09_upload_delivers_body', ['C09']), ('lemma_b1_idempotent', ['C09']), ('lemma_after_blocks', ['C09'])]:
+        u.probe(fn)
+        u.props(fn, pr)
     u.finish(common.HEAD)
     return u
